@@ -51,19 +51,19 @@ Proof.
   exact (handle_free_runs_agree c body t0 args0 HB HA ops1 ops2 s1 s2 r1 n1 r2 n2 R1 O1 R2 O2).
 Qed.
 
-(** `_preprocess_args` once per job (repaired call site), programs passing Handles: complete
-    executions in which no Handle state was passed to two sibling calls agree. *)
+(** `_preprocess_args` once per job (repaired call site) and one fork counter per parent job, programs
+    passing Handles: complete executions in which no Handle state was passed to two sibling calls agree. *)
 Theorem C07_once_per_job_linear_schedule_independent :
   forall (c : cfg) (body : nat -> list value -> expr) (t0 : nat) (args0 : list value),
-    pre_every_entry c = false ->
+    pre_every_entry c = false -> forks_per_parent c = true ->
     forall ops1 ops2 s1 s2 r1 n1 r2 n2,
       run c body (init t0 args0) ops1 = Some s1 -> outcome s1 = Some (r1, n1) -> linear s1 ->
       run c body (init t0 args0) ops2 = Some s2 -> outcome s2 = Some (r2, n2) -> linear s2 ->
       same_outcome s1 s2.
 Proof.
-  intros c body t0 args0 HO ops1 ops2 s1 s2 r1 n1 r2 n2 R1 O1 L1 R2 O2 L2.
+  intros c body t0 args0 HO HP ops1 ops2 s1 s2 r1 n1 r2 n2 R1 O1 L1 R2 O2 L2.
   apply (agree_same_outcome c body t0 args0 ops1 ops2 s1 s2 r1 n1 r2 n2 R1 O1 R2 O2).
-  exact (linear_runs_agree c body t0 args0 HO ops1 ops2 s1 s2 r1 n1 r2 n2 R1 O1 L1 R2 O2 L2).
+  exact (linear_runs_agree c body t0 args0 HO HP ops1 ops2 s1 s2 r1 n1 r2 n2 R1 O1 L1 R2 O2 L2).
 Qed.
 
 (** The recorded call nodes of a complete execution are exactly the nodes of the root's tree. *)
@@ -101,6 +101,20 @@ Proof. exact W2_shipped_differs. Qed.
 
 Theorem C07_sibling_order_remains_fixed : differ fixed W2 W2_a_first W2_b_first.
 Proof. exact W2_fixed_differs. Qed.
+
+(** One fork counter per EXECUTION (seeded change C07c): main() = [P(), Q()], each parent passing its own
+    H("h0") to one child — the child of the parent that completes first gets fork key 1, the other key 2.
+    Both executions satisfy the premise of C07_once_per_job_linear_schedule_independent. *)
+Theorem C07_refuted_per_execution_counter : differ per_execution W4 W4_p_first W4_q_first.
+Proof. exact W4_per_execution_differs. Qed.
+
+Theorem C07_per_execution_witness_per_parent : agree fixed W4 W4_p_first W4_q_first.
+Proof. exact W4_per_parent_agrees. Qed.
+
+Theorem C07_per_execution_witness_linear :
+  (exists s, run per_execution (tbody W4) (init 0 []) W4_p_first = Some s /\ linear_b s = true) /\
+  (exists s, run per_execution (tbody W4) (init 0 []) W4_q_first = Some s /\ linear_b s = true).
+Proof. exact W4_linear. Qed.
 
 (* NOT PROVED (and false for both variants, see C07_sibling_order_remains_fixed):
    forall body t0 args0 ops1 ops2 s1 s2, complete runs -> same_outcome s1 s2   for programs in which a
@@ -173,3 +187,6 @@ Print Assumptions C07_refuted_limits_e7_as_shipped.
 Print Assumptions C07_reentry_inert_fixed.
 Print Assumptions C07_refuted_sibling_order_as_shipped.
 Print Assumptions C07_sibling_order_remains_fixed.
+Print Assumptions C07_refuted_per_execution_counter.
+Print Assumptions C07_per_execution_witness_per_parent.
+Print Assumptions C07_per_execution_witness_linear.
